@@ -107,6 +107,18 @@ impl<N: Eq + Hash + Copy> OnlineToposort<N> {
     }
 }
 
+#[cfg(feature = "verif")]
+impl<N: Eq + Hash + Copy> OnlineToposort<N> {
+    /// The visited set in its current iteration order and the ready stack
+    /// (verification hook).
+    pub fn verif_state(&self) -> (Vec<N>, Vec<N>) {
+        (
+            self.visited.iter().copied().collect(),
+            self.to_visit_next.clone(),
+        )
+    }
+}
+
 fn node_is_ready<N, G>(node: N, graph: G, visited: &HashSet<N>) -> bool
 where
     N: Eq + Hash + Copy,
